@@ -64,6 +64,11 @@ MATSETS = {
     "magnetic": dict(objs=[dict(permittivity=2.0, permeability=1.5), dict(permittivity=3.0), dict(permittivity=4.0, permeability=(1.2, 1.1, 2.0))], vol={}),
     "conductive": dict(objs=[dict(permittivity=2.0, electric_conductivity=0.5), dict(permittivity=3.0, magnetic_conductivity=(0.1, 0.2, 0.3)), dict(permittivity=4.0, electric_conductivity=1.5)], vol={}),
     "cond-full": dict(objs=[dict(permittivity=2.0, electric_conductivity=FULLC), dict(permittivity=3.0, permeability=FULL), dict(permittivity=4.0, electric_conductivity=0.25)], vol={}),
+    # object 1 is a multi-material Sphere whose materials dict also holds a sibling ("sib") with the SAME permittivity but
+    # different secondary properties; the dict lists the designated material first or second (seeded change C28b)
+    "tie-cond": dict(objs=[dict(permittivity=3.0), dict(permittivity=2.25, electric_conductivity=0.8), dict(permittivity=4.0)], vol={}, sib=dict(permittivity=2.25)),
+    "tie-mag": dict(objs=[dict(permittivity=3.0, permeability=1.3), dict(permittivity=2.25, permeability=1.2), dict(permittivity=4.0)], vol={},
+                    sib=dict(permittivity=2.25, permeability=1.5, magnetic_conductivity=0.4)),
     "volume-material": dict(objs=[dict(permittivity=2.0), dict(permittivity=3.0), dict(permittivity=4.0)], vol=dict(permittivity=1.5, permeability=2.0, electric_conductivity=0.1)),
 }
 
@@ -72,9 +77,11 @@ def cases(tier, seed):
     out = []
     gn, mn = list(GEOMS), list(MATSETS)
     if tier == "quick":
+        mn = [m for m in mn if not m.startswith("tie-")]
         for i, g in enumerate(gn):
             out.append(dict(name=f"paint-{g}-{mn[i % len(mn)]}", kind="paint", geoms=[[g, GEOMS[g]]], matset=mn[i % len(mn)]))
     else:
+        mn = [m for m in mn if not m.startswith("tie-")]
         for g in gn:
             for m in mn:
                 out.append(dict(name=f"paint-{g}-{m}", kind="paint", geoms=[[g, GEOMS[g]]], matset=m))
@@ -85,6 +92,9 @@ def cases(tier, seed):
         for k in range(0, len(pairs), per):
             geoms = [[f"x{a[0]}{a[1]}-{b[0]}{b[1]}", [F(a, (0, 3), (0, 4)), F(b, (1, 4), (0, 4))]] for a, b in pairs[k:k + per]]
             out.append(dict(name=f"paint-allen-{k // per}", kind="paint", geoms=geoms, matset=mn[(k // per) % len(mn)]))
+    for ms_, first in (("tie-cond", "main"), ("tie-cond", "sib"), ("tie-mag", "main"), ("tie-mag", "sib")):
+        out.append(dict(name=f"paint-multimat-{ms_}-{first}first", kind="paint", matset=ms_,
+                        geoms=[["sphere-over-box", [F((0, 4), (0, 4), (0, 3)), F((0, 4), (0, 4), (0, 4))], dict(index=1, first=first)]]))
     out.append(dict(name="tiers-permittivity", kind="tiers", prop="permittivity"))
     out.append(dict(name="tiers-permeability", kind="tiers", prop="permeability"))
     out.append(dict(name="tiers-electric_conductivity", kind="tiers", prop="electric_conductivity"))
@@ -148,7 +158,7 @@ def expected_tiers(all_mkw):
 KINDS = ("inv_permittivities", "inv_permeabilities", "electric_conductivity", "magnetic_conductivity")
 
 
-def build_scene(boxes, matset, orders=None, N=4):
+def build_scene(boxes, matset, orders=None, N=4, multi=None):
     import jax
     import jax.numpy as jnp
 
@@ -160,7 +170,13 @@ def build_scene(boxes, matset, orders=None, N=4):
     objs, cons = [vol], []
     for i, b in enumerate(boxes):
         kw = {} if orders is None else {"placement_order": int(orders[i])}
-        o = fdtdx.UniformMaterialObject(name=f"O{i}", partial_grid_shape=tuple(h - l for l, h in b), material=fdtdx.Material(**ms["objs"][i]), **kw)
+        if multi is not None and i == multi["index"]:
+            mats = [("main", fdtdx.Material(**ms["objs"][i])), ("sib", fdtdx.Material(**ms["sib"]))]
+            if multi["first"] == "sib":
+                mats.reverse()
+            o = fdtdx.Sphere(name=f"O{i}", radius=0.5 * (b[0][1] - b[0][0]) * SPACING, materials=dict(mats), material_name="main", **kw)
+        else:
+            o = fdtdx.UniformMaterialObject(name=f"O{i}", partial_grid_shape=tuple(h - l for l, h in b), material=fdtdx.Material(**ms["objs"][i]), **kw)
         objs.append(o)
         cons.append(o.set_grid_coordinates((0, 1, 2), ("-",) * 3, tuple(l for l, h in b)))
     return fdtdx.place_objects(object_list=objs, config=cfg, constraints=cons, key=jax.random.PRNGKey(0))
@@ -180,19 +196,32 @@ def arrays_np(arrays):
     return out
 
 
-def cover_sets(boxes, N=4):
-    """cell -> tuple of covering object indices (1-based; 0 = volume covers everything)."""
+def cover_sets(boxes, N=4, masks=None):
+    """cell -> tuple of covering object indices (1-based; 0 = volume covers everything).  ``masks`` (object index -> bool array
+    over the domain) replaces the box footprint for shaped objects (the rasterisation itself is property C43)."""
     cov = {}
     for cell in itertools.product(range(N), repeat=3):
-        cov[cell] = (0,) + tuple(i + 1 for i, b in enumerate(boxes) if all(b[a][0] <= cell[a] < b[a][1] for a in range(3)))
+        cov[cell] = (0,) + tuple(i + 1 for i, b in enumerate(boxes)
+                                 if (bool(masks[i][cell]) if masks and i in masks else all(b[a][0] <= cell[a] < b[a][1] for a in range(3))))
     return cov
 
 
-def concrete_check(boxes, matset, orders, A, N=4):
+def shape_masks(oc, multi, N=4):
+    if multi is None:
+        return None
+    o = next(x for x in oc.objects if x.name == f"O{multi['index']}")
+    m = np.zeros((N, N, N), dtype=bool)
+    m[o.grid_slice] = np.asarray(o.get_voxel_mask_for_shape())
+    if not m.any() or m.all():
+        raise Inconclusive("sphere mask is empty or covers the whole domain (no painter boundary inside the box)")
+    return {multi["index"]: m}
+
+
+def concrete_check(boxes, matset, orders, A, N=4, masks=None):
     """independent concrete oracle: per cell the winner is the covering object with the largest (order, list index)."""
     ms = MATSETS[matset]
     mk = [ms["vol"]] + ms["objs"][: len(boxes)]
-    tiers = expected_tiers(mk)
+    tiers = expected_tiers(mk + ([ms["sib"]] if "sib" in ms else []))
     vals = [expected_values(m, tiers) for m in mk]
     ords = [-1000] + list(orders)
     bad = []
@@ -206,7 +235,7 @@ def concrete_check(boxes, matset, orders, A, N=4):
         if not isinstance(a, np.ndarray) or a.shape != (tiers[k], N, N, N):
             bad.append(f"{k}: expected shape {(tiers[k], N, N, N)}, got {None if a is None else getattr(a, 'shape', a)}")
             continue
-        for cell, cs in cover_sets(boxes, N).items():
+        for cell, cs in cover_sets(boxes, N, masks).items():
             w = max(cs, key=lambda j: (ords[j], j))
             if not np.allclose(a[(slice(None),) + cell], vals[w][k], rtol=1e-9, atol=1e-18):
                 bad.append(f"{k}{cell}: stored {a[(slice(None),) + cell].tolist()} but winner is object {w} with {vals[w][k].tolist()}")
@@ -228,10 +257,14 @@ def _paint(c, case):
     c.functions.update(META["functions"][:2])
     matset = case["matset"]
     ms = MATSETS[matset]
-    for gname, boxes in case["geoms"]:
+    for gname, boxes, *rest in case["geoms"]:
+        multi = rest[0] if rest else None
         boxes = [tuple(tuple(ax) for ax in b) for b in boxes]
         nb = len(boxes)
-        oc, arrays0, params, config, info = build_scene(boxes, matset)
+        oc, arrays0, params, config, info = build_scene(boxes, matset, multi=multi)
+        masks = shape_masks(oc, multi)
+        if multi is not None:
+            c.functions.add("StaticMultiMaterialObject.get_material_mapping / materials.compute_ordered_names (Sphere with a permittivity tie in its materials dict)")
         ords, assume, ol = [], [], []
         for o in oc.objects:
             if o.name.startswith("O"):
@@ -246,9 +279,9 @@ def _paint(c, case):
         if names != ["vol"] + [f"O{i}" for i in range(nb)]:
             raise Inconclusive(f"unexpected object list order {names}")
         mk = [ms["vol"]] + ms["objs"][:nb]
-        tiers = expected_tiers(mk)
+        tiers = expected_tiers(mk + ([ms["sib"]] if multi is not None else []))
         vals = [expected_values(m, tiers) for m in mk]
-        cov = cover_sets(boxes)
+        cov = cover_sets(boxes, masks=masks)
         zord = [z3.IntVal(-1000)] + [s.t for s in ords]
 
         def winner(j, cs):
@@ -257,10 +290,10 @@ def _paint(c, case):
         seen_arrays = set()
         stats = dict(paths=0)
 
-        def replay(m, boxes=boxes):
+        def replay(m, boxes=boxes, multi=multi, masks=masks):
             orders = [int(model_value(m, s.t)) for s in ords]
-            oc2, arr2, *_ = build_scene(boxes, matset, orders=orders)
-            bad = concrete_check(boxes, matset, orders, arrays_np(arr2))
+            oc2, arr2, *_ = build_scene(boxes, matset, orders=orders, multi=multi)
+            bad = concrete_check(boxes, matset, orders, arrays_np(arr2), masks=masks)
             return bool(bad), dict(geometry=gname, boxes=boxes, materials=matset, placement_orders=orders, list_order=["vol"] + [f"O{i}" for i in range(nb)], mismatches=bad[:4])
 
         def on_path(res, exc, pc):
